@@ -289,7 +289,7 @@ def pi_theorem(quantities: dict[str, Any], registry: UnitRegistry | None = None)
     for rowm, rowi in zip(ech_matrix, id_matrix):
         if any(el != 0 for el in rowm):
             continue
-        max_den = max(f.denominator for f in rowi)
+        max_den = math.lcm(*(f.denominator for f in rowi))
         neg = -1 if sum(f < 0 for f in rowi) > sum(f > 0 for f in rowi) else 1
         results.append(
             {
